@@ -173,6 +173,46 @@ func gen(t *rapid.T) Case {
 // ---------------------------------------------------------------------------
 // oracle
 
+// trickleFill is the fill half of the documented trickle structure; kit's CheckTrickleShape
+// is the bounding half (direct leaves first, sub-tree #j has depth bound j/4+1, a tree of
+// depth bound d only holds sub-trees of depth bound < d).
+//
+// Package doc of importer/trickle: "non-leave nodes are first filled with data leaves, and
+// then incorporate layers of subtrees ... the nodes first layer can only hold leaves (depth
+// 1) but subsequent layers can grow deeper ... 4 subtrees of the same maximum depth before
+// increasing it"; fillTrickleRec: "For each depth in [1, maxDepth) add depthRepeat
+// sub-graphs of that depth"; trickleDepthInfo (Append, DagModifier) deduces the depth at
+// which filling goes on from the number of links alone, i.e. takes every link before the
+// last one as finished. A sub-tree is therefore only ever closed by its depth bound, never
+// while it still has room: every sub-tree that is followed by a sibling is full, which for
+// a tree inside the bounds means that it holds exactly the capacity of its depth bound
+// (cap(1) = width, cap(d) = width + 4*(cap(1)+..+cap(d-1)) leaves). Only the sub-trees on
+// the right-most path may be partial, and each of them obeys the same rule inside.
+//
+// The returned fullDepth is the largest depth bound of a sub-tree that was required to be
+// full (0 if none), for the class histogram.
+func trickleFill(t *kit.FileTree, width int) (fullDepth int, err error) {
+	var rec func(n *kit.FileNode, path string) error
+	rec = func(n *kit.FileNode, path string) error {
+		last := len(n.Children) - 1
+		for i := width; i <= last; i++ {
+			c := n.Children[i]
+			p := fmt.Sprintf("%s/%d", path, i)
+			d := (i-width)/kit.TrickleRepeat + 1
+			if i == last {
+				return rec(c, p)
+			}
+			if got, want := c.Leaves(), kit.TrickleCapacity(width, d); c.IsLeaf() || got != want {
+				return fmt.Errorf("shape: under-filled at %s: sub-tree #%d (depth bound %d, %d links) holds %d leaves but is followed by a sibling; a full sub-tree of that depth bound holds %d at width %d",
+					p, i-width, d, len(c.Children), got, want, width)
+			}
+			fullDepth = max(fullDepth, d)
+		}
+		return nil
+	}
+	return fullDepth, rec(t.Root, "root")
+}
+
 const knownF3 = "balanced-rawleaf-single-chunk-metadata"
 
 func run(c Case) kit.Result {
@@ -227,6 +267,7 @@ func run(c Case) kit.Result {
 	}
 
 	// (3) shape
+	trickleFull := 0 // largest depth bound of a trickle sub-tree that had to be full
 	switch p.Layout {
 	case "balanced":
 		if err := tree.CheckLeaves(p.RawLeaves, "", false); err != nil {
@@ -243,6 +284,11 @@ func run(c Case) kit.Result {
 		lib := kit.LibVerifyTrickle(dserv, stored, p)
 		if own != nil || lib != nil {
 			return kit.Fail("trickle shape: own checker: %v; VerifyTrickleDagStructure: %v", own, lib)
+		}
+		// inside the bounds (checked above), the fill rule
+		var err error
+		if trickleFull, err = trickleFill(tree, p.Width); err != nil {
+			return kit.Fail("trickle %v", err)
 		}
 	}
 
@@ -295,12 +341,15 @@ func run(c Case) kit.Result {
 	if h >= 2 {
 		cls = append(cls, "deep:"+p.Layout)
 	}
+	if p.Layout == "trickle" && h >= 1 {
+		cls = append(cls, fmt.Sprintf("trickle:full-subtree-depth:%d", min(trickleFull, 4)))
+	}
 	return kit.Result{NonTrivial: h >= 2 || meta, Classes: cls}
 }
 
 var spec = kit.Spec[Case]{
 	Prop: "C07", Name: "main",
-	Rule:  "layout balanced|trickle x width 2..1024 (weighted 2-8) x chunker (size-1..64 KiB weighted tiny, rabin-min-avg-max, rabin-N; buzhash/default/rabin in thorough) x raw|dag-pb leaves x CID builder (none, v0, v1 with sha2-256/sha2-512/blake2b-256/sha3-256, explicit or default digest length) x optional mode 1..07777 x optional mtime x input (const/periodic/random; chunk count weighted to width powers and full trickle layers; <= 256 KiB quick, <= 4 MiB thorough); non-trivial = at least two levels of internal nodes, or metadata requested",
+	Rule:  "layout balanced|trickle x width 2..1024 (weighted 2-8) x chunker (size-1..64 KiB weighted tiny, rabin-min-avg-max, rabin-N; buzhash/default/rabin in thorough) x raw|dag-pb leaves x CID builder (none, v0, v1 with sha2-256/sha2-512/blake2b-256/sha3-256, explicit or default digest length) x optional mode 1..07777 x optional mtime x input (const/periodic/random; chunk count weighted to width powers and full trickle layers; <= 256 KiB quick, <= 4 MiB thorough); trickle shape = depth/repeat bounds + every sub-tree followed by a sibling is full; non-trivial = at least two levels of internal nodes, or metadata requested",
 	Quick: 700, Thorough: 1800,
 	Gen: gen, Run: run,
 }
